@@ -1,5 +1,7 @@
 package server
 
+import "time"
+
 // no-op logger.Logger
 type vLog struct{}
 
@@ -26,3 +28,5 @@ func vMkServer(dataDir string) *Server {
 	s := &Server{config: cfg, logger: vLog{}, shutdownCh: make(chan struct{})}
 	return s
 }
+
+func vTimeZero() (t time.Time) { return }
